@@ -431,10 +431,11 @@ func runRetryCase(c retryCase, long time.Duration) retryResult {
 	if !cancelled {
 		s.Stop()
 	}
-	wctx, wcancel := context.WithTimeout(context.Background(), retryPatience)
+	wpat := patience()
+	wctx, wcancel := context.WithTimeout(context.Background(), wpat)
 	s.Wait(wctx)
 	if wctx.Err() != nil {
-		flagV("Wait did not return within %v after the scheduler was stopped (first execution ended %s)", retryPatience, round1.end)
+		flagV("Wait did not return within %v after the scheduler was stopped (first execution ended %s)", wpat, round1.end)
 	}
 	wcancel()
 
